@@ -31,11 +31,11 @@ def T.slots (t : T ε) : List Nat := t.toList.map (·.1)
 
 def T.orderedCheck (t : T (Ent V)) : Bool := strictlyIncreasing t.keys
 
-/-- slot 0, the tree slots and the free list partition `0..bufLen`, without repetition -/
+/-- slot 0, the tree slots and the free list partition `0..bufLen`, without repetition:
+sorted, they are exactly `0, 1, …, bufLen-1` -/
 def slotsCheck (t : T ε) (p : Pool) : Bool :=
-  let all := 0 :: (t.slots ++ p.unused)
-  all.length == p.bufLen && all.all (· < p.bufLen) && all.eraseDups.length == all.length
-    && p.unused.length ≤ p.cap
+  (0 :: (t.slots ++ p.unused)).mergeSort (fun a b => decide (a ≤ b)) == List.range p.bufLen
+    && decide (p.unused.length ≤ p.cap)
 
 def St.wfCheck (st : St V) : Bool :=
   st.tree.orderedCheck && st.tree.balCheck.isSome && slotsCheck st.tree st.pool
